@@ -522,6 +522,10 @@ fn string_strategy() -> BoxedStrategy<String> {
         3 => "[ -~]{1,64}",
         2 => "\\PC{1,24}",
         1 => "[a-zé✓𝄞\\\\'\"\n]{1,32}",
+        // long strings of wide characters: few items, many bytes (128..256 bytes in at most 64 characters)
+        1 => "[𝄞😀𐍈]{30,64}",
+        1 => "[✓€あ]{40,64}",
+        1 => "[éßж]{60,64}",
     ]
     .boxed()
 }
